@@ -743,6 +743,22 @@ func c12Edges(x *c12ctx, jr *rand.Rand, idx int) {
 			return refRangeProof(x, cred, []int{1}, 2, mm, -1, 1, k, pk.Params.Lm, bigFourSquares(dl), ctx, nonce, 2)
 		}},
 	}
+	// three squares with every small factor other than 4: the relation a*m >= k (resp. <=) proved is true, what a verifier
+	// would read from such a descriptor (factor a/4, bound k/4) need not be
+	for _, a := range []uint{0, 2, 3, 5, 6, 7, 8, 9, 12, 16} {
+		for _, sg := range []int{1, -1} {
+			for _, dl := range []int64{0, 1, 2} {
+				a, sg, dl := a, sg, dl
+				k := bi(int64(a)*m - int64(sg)*dl)
+				refs = append(refs, struct {
+					name string
+					f    func() *gabi.ProofD
+				}{fmt.Sprintf("three squares a=%d sign %d k=%d*m%+d (true relation)", a, sg, a, -int64(sg)*dl), func() *gabi.ProofD {
+					return refRangeProof(x, cred, []int{1}, 2, mm, sg, a, k, 8, threeOf(bi(dl)), ctx, nonce, 2)
+				}})
+			}
+		}
+	}
 	for _, rf := range refs {
 		var d *gabi.ProofD
 		pv, _ := mon.Try(func() { d = rf.f() })
